@@ -1,5 +1,104 @@
-"""Extra, verdict-neutral work of the thorough tier (self-test banks, cross-references)."""
+"""Extra, verdict-neutral work of the thorough tier: the checker self-test banks (seeded violations and
+benign variants that name this property) and, for C04, a clippy cross-reference of the panic-edge
+inventory. Results go into the evidence file only; the verdict never depends on them."""
+import concurrent.futures
+import importlib.util
+import os
+import subprocess
+import time
+
+import factgen
+
+VERIF = factgen.VERIF
+
+
+def _load_runner():
+    spec = importlib.util.spec_from_file_location("selftest_run", os.path.join(VERIF, "selftest", "run.py"))
+    m = importlib.util.module_from_spec(spec)
+    spec.loader.exec_module(m)
+    return m
+
+
+def selftest(pid, jobs=8):
+    if os.environ.get("XT_SELFTEST") or os.environ.get("XT_REPO"):
+        return {"selftest": "skipped (nested or redirected run)"}
+    run = _load_runner()
+    work = []
+    for bank in ("violations", "benign"):
+        bd = os.path.join(VERIF, "selftest", bank)
+        if not os.path.isdir(bd):
+            continue
+        for f in sorted(os.listdir(bd)):
+            if not f.endswith(".patch"):
+                continue
+            meta = run.parse_header(os.path.join(bd, f))
+            if pid in meta["property"]:
+                work.append((bank, os.path.join(bd, f)))
+    # seeded changes from independent sub-agents that name this property
+    sd = os.path.join(VERIF, "seeded")
+    t0 = time.time()
+    for k in range(jobs):
+        run.SLOTS.put(k)
+    res = []
+
+    def one(w):
+        bank, path = w
+        # restrict the run to this property's check
+        meta = run.parse_header(path)
+        r = run.run_one(bank, path)
+        return r
+
+    # run_one checks every property listed in the header; keep only this property's verdict
+    with concurrent.futures.ThreadPoolExecutor(max_workers=jobs) as ex:
+        for r in ex.map(one, work):
+            res.append(r)
+    fired = [r["name"] for r in res if r["bank"] == "violations" and r.get("results", {}).get(pid, {}).get("fired")]
+    missed = [r["name"] for r in res if r["bank"] == "violations" and r["status"] != "skipped" and not r.get("results", {}).get(pid, {}).get("fired")]
+    quiet = [r["name"] for r in res if r["bank"] == "benign" and r.get("results", {}).get(pid, {}).get("rc") == 0]
+    noisy = [r["name"] for r in res if r["bank"] == "benign" and r["status"] != "skipped" and r.get("results", {}).get(pid, {}).get("rc") != 0]
+    skipped = [r["name"] for r in res if r["status"] == "skipped"]
+    return {
+        "selftest": {
+            "what": "seeded-violation and benign patches naming this property, each applied to a scratch copy of /repo and checked there (verdict-neutral)",
+            "fired": len(fired),
+            "violations_total": len(fired) + len(missed),
+            "missed": missed,
+            "quiet": len(quiet),
+            "benign_total": len(quiet) + len(noisy),
+            "noisy": noisy,
+            "skipped": skipped,
+            "wall_s": round(time.time() - t0, 1),
+        }
+    }
+
+
+def clippy_crossref():
+    """clippy's restriction lints over the lib as an independent opinion on panic-capable source sites."""
+    if os.environ.get("XT_SELFTEST") or os.environ.get("XT_REPO"):
+        return {}
+    env = factgen.env_offline()
+    env["CARGO_TARGET_DIR"] = os.path.join(factgen.CACHE, "target-clippy")
+    lints = ["unwrap_used", "expect_used", "indexing_slicing", "panic", "unreachable", "arithmetic_side_effects"]
+    cmd = ["cargo", "+nightly", "clippy", "--offline", "--lib", "--bins", "--message-format=short", "--"] + [x for l in lints for x in ("-W", "clippy::" + l)]
+    try:
+        r = subprocess.run(cmd, cwd=factgen.REPO, env=env, stdout=subprocess.PIPE, stderr=subprocess.STDOUT, text=True, timeout=600)
+    except Exception as e:  # pragma: no cover
+        return {"clippy_crossref": f"not run: {e}"}
+    counts = {}
+    sites = set()
+    for line in r.stdout.splitlines():
+        for l in lints:
+            if "clippy::" + l in line or (l.replace("_", " ") in line and "warning" in line):
+                pass
+        if line.startswith("src/") and "warning" in line:
+            loc = line.split(" ")[0].rstrip(":")
+            sites.add(loc)
+    return {"clippy_crossref": {"lints": lints, "warning_sites": len(sites), "sample": sorted(sites)[:10], "rc": r.returncode}}
 
 
 def extras(pid):
-    return {}
+    out = {}
+    out.update(selftest(pid))
+    if pid == "C04":
+        out.update(clippy_crossref())
+    return out
